@@ -2273,7 +2273,7 @@ def verUsed (c : V2.I_Claims) (hdr : Option V2.T_Header) (ver : Int) : Int :=
 
 /-- **`Decode` accepts only authentic tokens (translated code).** If the translated `Decode` returns claims `c`
 without an error, then the token had exactly three chunks `hd.p.s`; header, payload and signature decoded without
-error; `c` is what `loadClaims` returned for the payload; the claim's own `verify` accepted the signature over `p`
+error; `c` is what the (translated) `loadClaims` returned for the payload; the claim's own `verify` accepted the signature over `p`
 (reported version ≤ 1) or over `hd.p` (otherwise) — never over anything else; and if the claim type expects issuer
 roles, the issuer read through `Claims()` passes the validator of one of them. -/
 theorem gen_decode_accepts (opq : V2.Opq) (tok : Str) (c : V2.I_Claims)
@@ -2282,7 +2282,7 @@ theorem gen_decode_accepts (opq : V2.Opq) (tok : Str) (c : V2.I_Claims)
       splitOn '.' tok = [hd, p, s] ∧
       opq.parseHeaders hd = some (hdr, false) ∧
       opq.decodeString p = some (data, false) ∧
-      opq.loadClaims data = some (ver, some c, false) ∧
+      V2.loadClaims data opq = some (ver, some c, false) ∧
       opq.decodeString s = some (sig, false) ∧
       opq.Claims_verify c (if verUsed c hdr ver ≤ 1 then p else hd ++ '.' :: p) sig = true ∧
       (match V2.I_Claims.ExpectedPrefixes c with
@@ -2308,7 +2308,7 @@ theorem gen_decode_accepts (opq : V2.Opq) (tok : Str) (c : V2.I_Claims)
     · simp [hph, hdp] at h
     cases e2
     case true => simp [hph, hdp] at h
-    rcases hlc : opq.loadClaims data with _ | ⟨ver, cl, e3⟩
+    rcases hlc : V2.loadClaims data opq with _ | ⟨ver, cl, e3⟩
     · simp [hph, hdp, hlc] at h
     cases e3
     case true => simp [hph, hdp, hlc] at h
@@ -2398,7 +2398,11 @@ def demoOpq : V2.Opq :=
   { DecodeActivationClaims := fun _ => none, RenamingSubject_ToSubject := fun x => some x,
     parseHeaders := fun _ => some (some { f_Type := "JWT".toList, f_Algorithm := "ed25519-nkey".toList }, false),
     decodeString := fun _ => some ([], false),
-    loadClaims := fun _ => some (2, some (.AccountClaims default), false),
+    loadOperator := fun _ _ => none, loadUser := fun _ _ => none, loadActivation := fun _ _ => none,
+    loadAuthorizationRequest := fun _ _ => none, loadAuthorizationResponse := fun _ _ => none,
+    loadAccount := fun _ _ => some (some default, false),
+    json_Unmarshalidentifier := fun _ id => ({ id with f_GenericFields := { id.f_GenericFields with f_Type := "account".toList, f_Version := 2 } }, false),
+    json_UnmarshalGenericClaims := fun _ g => (g, true),
     strconv_Atoi := fun _ => none, nkeys_IsValidPublicAccountKey := fun _ => true, url_Parse := fun _ => none,
     nkeys_IsValidPublicUserKey := fun _ => false, nkeys_IsValidPublicCurveKey := fun _ => false,
     nkeys_IsValidPublicServerKey := fun _ => false, time_Parse := fun _ _ => false, net_ParseCIDR := fun _ => false,
@@ -2505,5 +2509,127 @@ theorem gen_encode_refuses_unfit_subject (opq : V2.Opq) (kp : Nat) :
   · intro a h; rw [v2_accountEncode]; simp [h]
   · intro a h; rw [v2_activationEncode]; simp [h]
   · intro o h; unfold V2.OperatorClaims_Encode; simp [h]
+
+/-! ## C05 / C02: the version gate and the kind dispatch of `loadClaims`, as translated
+
+`json.Unmarshal` into an `identifier` / `GenericClaims` and the six typed loaders are parameters; what is translated and
+proved is the gate itself: an identifier that failed to parse or declares a version above the library's is refused,
+the loader is chosen by the declared kind and is handed the declared version, `cluster` and `server` are refused, and
+anything else is read as generic claims and reported with version −1. -/
+
+def identKind (i : V2.T_identifier) : Str := if i.f_Type ≠ [] then i.f_Type else i.f_GenericFields.f_Type
+def identVersion (i : V2.T_identifier) : Int := if i.f_Type ≠ [] then 1 else i.f_GenericFields.f_Version
+
+theorem identifier_closed (i : V2.T_identifier) :
+    V2.identifier_Kind i = some (identKind i) ∧ V2.identifier_Version i = some (identVersion i) := by
+  unfold V2.identifier_Kind V2.identifier_Version identKind identVersion
+  by_cases h : i.f_Type = [] <;> simp [h]
+
+theorem load_case {α : Type} (f : Option (Option α × Bool)) (ctor : α → V2.I_Claims) (v ver : Int) (c : V2.I_Claims)
+    (h : (f.bind fun o => some (v, Option.map ctor o.1, o.2)) = some (ver, some c, false)) :
+    ver = v ∧ ∃ x, f = some (some x, false) ∧ c = ctor x := by
+  rcases f with _ | ⟨x, e⟩
+  · simp at h
+  · cases x with
+    | none => simp at h
+    | some x =>
+      simp only [Option.bind_some, Option.map_some, Option.some.injEq, Prod.mk.injEq] at h
+      obtain ⟨h1, h2, h3⟩ := h
+      exact ⟨h1.symm, x, by rw [h3], h2.symm⟩
+
+/-- what `loadClaims` accepted, it accepted through the gate -/
+theorem gen_loadClaims_accepts (opq : V2.Opq) (data : List Int) (ver : Int) (c : V2.I_Claims)
+    (h : V2.loadClaims data opq = some (ver, some c, false)) :
+    let r := opq.json_Unmarshalidentifier data default
+    let k := identKind r.1
+    let v := identVersion r.1
+    r.2 = false ∧ v ≤ 2 ∧
+    ((k = "operator".toList ∧ ver = v ∧ ∃ x, opq.loadOperator data v = some (some x, false) ∧ c = .OperatorClaims x) ∨
+     (k = "account".toList ∧ ver = v ∧ ∃ x, opq.loadAccount data v = some (some x, false) ∧ c = .AccountClaims x) ∨
+     (k = "user".toList ∧ ver = v ∧ ∃ x, opq.loadUser data v = some (some x, false) ∧ c = .UserClaims x) ∨
+     (k = "activation".toList ∧ ver = v ∧ ∃ x, opq.loadActivation data v = some (some x, false) ∧ c = .ActivationClaims x) ∨
+     (k = "authorization_request".toList ∧ ver = v ∧
+        ∃ x, opq.loadAuthorizationRequest data v = some (some x, false) ∧ c = .AuthorizationRequestClaims x) ∨
+     (k = "authorization_response".toList ∧ ver = v ∧
+        ∃ x, opq.loadAuthorizationResponse data v = some (some x, false) ∧ c = .AuthorizationResponseClaims x) ∨
+     (k ∉ ["operator".toList, "account".toList, "user".toList, "activation".toList, "authorization_request".toList,
+           "authorization_response".toList, "cluster".toList, "server".toList] ∧ ver = -1 ∧
+        ∃ g, opq.json_UnmarshalGenericClaims data default = (g, false) ∧ c = .GenericClaims g)) := by
+  intro r k v
+  unfold V2.loadClaims at h
+  simp only [(identifier_closed _).1, (identifier_closed _).2, Option.pure_def, Option.bind_eq_bind, Option.bind_some] at h
+  have hr : opq.json_Unmarshalidentifier data default = r := rfl
+  rw [hr] at h
+  cases he : r.2
+  case true => simp [he] at h
+  simp only [he, Bool.false_eq_true, if_false] at h
+  by_cases hv : identVersion r.1 > 2
+  · simp [hv] at h
+  have hv' : v ≤ 2 := by show identVersion r.1 ≤ 2; omega
+  simp only [hv, decide_false, Bool.false_eq_true, if_false] at h
+  refine ⟨rfl, hv', ?_⟩
+  have e1 : ("operator".toList : Str) = ['o', 'p', 'e', 'r', 'a', 't', 'o', 'r'] := by decide
+  have e2 : ("account".toList : Str) = ['a', 'c', 'c', 'o', 'u', 'n', 't'] := by decide
+  have e3 : ("user".toList : Str) = ['u', 's', 'e', 'r'] := by decide
+  have e4 : ("activation".toList : Str) = ['a', 'c', 't', 'i', 'v', 'a', 't', 'i', 'o', 'n'] := by decide
+  have e5 : ("authorization_request".toList : Str) =
+      ['a', 'u', 't', 'h', 'o', 'r', 'i', 'z', 'a', 't', 'i', 'o', 'n', '_', 'r', 'e', 'q', 'u', 'e', 's', 't'] := by decide
+  have e6 : ("authorization_response".toList : Str) =
+      ['a', 'u', 't', 'h', 'o', 'r', 'i', 'z', 'a', 't', 'i', 'o', 'n', '_', 'r', 'e', 's', 'p', 'o', 'n', 's', 'e'] := by decide
+  have e7 : ("cluster".toList : Str) = ['c', 'l', 'u', 's', 't', 'e', 'r'] := by decide
+  have e8 : ("server".toList : Str) = ['s', 'e', 'r', 'v', 'e', 'r'] := by decide
+  simp only [e1, e2, e3, e4, e5, e6, e7, e8]
+  show (identKind r.1 = _ ∧ _) ∨ _
+  by_cases h1 : identKind r.1 = ['o', 'p', 'e', 'r', 'a', 't', 'o', 'r']
+  · simp only [h1, beq_self_eq_true, if_true] at h
+    exact Or.inl ⟨h1, load_case _ _ _ _ _ h⟩
+  have h1' : (identKind r.1 == ['o', 'p', 'e', 'r', 'a', 't', 'o', 'r']) = false := by simpa using h1
+  simp only [h1', Bool.false_eq_true, if_false] at h
+  by_cases h2 : identKind r.1 = ['a', 'c', 'c', 'o', 'u', 'n', 't']
+  · simp only [h2, beq_self_eq_true, if_true] at h
+    exact Or.inr (Or.inl ⟨h2, load_case _ _ _ _ _ h⟩)
+  have h2' : (identKind r.1 == ['a', 'c', 'c', 'o', 'u', 'n', 't']) = false := by simpa using h2
+  simp only [h2', Bool.false_eq_true, if_false] at h
+  by_cases h3 : identKind r.1 = ['u', 's', 'e', 'r']
+  · simp only [h3, beq_self_eq_true, if_true] at h
+    exact Or.inr (Or.inr (Or.inl ⟨h3, load_case _ _ _ _ _ h⟩))
+  have h3' : (identKind r.1 == ['u', 's', 'e', 'r']) = false := by simpa using h3
+  simp only [h3', Bool.false_eq_true, if_false] at h
+  by_cases h4 : identKind r.1 = ['a', 'c', 't', 'i', 'v', 'a', 't', 'i', 'o', 'n']
+  · simp only [h4, beq_self_eq_true, if_true] at h
+    exact Or.inr (Or.inr (Or.inr (Or.inl ⟨h4, load_case _ _ _ _ _ h⟩)))
+  have h4' : (identKind r.1 == ['a', 'c', 't', 'i', 'v', 'a', 't', 'i', 'o', 'n']) = false := by simpa using h4
+  simp only [h4', Bool.false_eq_true, if_false] at h
+  by_cases h5 : identKind r.1 =
+      ['a', 'u', 't', 'h', 'o', 'r', 'i', 'z', 'a', 't', 'i', 'o', 'n', '_', 'r', 'e', 'q', 'u', 'e', 's', 't']
+  · simp only [h5, beq_self_eq_true, if_true] at h
+    exact Or.inr (Or.inr (Or.inr (Or.inr (Or.inl ⟨h5, load_case _ _ _ _ _ h⟩))))
+  have h5' : (identKind r.1 ==
+      ['a', 'u', 't', 'h', 'o', 'r', 'i', 'z', 'a', 't', 'i', 'o', 'n', '_', 'r', 'e', 'q', 'u', 'e', 's', 't']) = false := by
+    simpa using h5
+  simp only [h5', Bool.false_eq_true, if_false] at h
+  by_cases h6 : identKind r.1 =
+      ['a', 'u', 't', 'h', 'o', 'r', 'i', 'z', 'a', 't', 'i', 'o', 'n', '_', 'r', 'e', 's', 'p', 'o', 'n', 's', 'e']
+  · simp only [h6, beq_self_eq_true, if_true] at h
+    exact Or.inr (Or.inr (Or.inr (Or.inr (Or.inr (Or.inl ⟨h6, load_case _ _ _ _ _ h⟩)))))
+  have h6' : (identKind r.1 ==
+      ['a', 'u', 't', 'h', 'o', 'r', 'i', 'z', 'a', 't', 'i', 'o', 'n', '_', 'r', 'e', 's', 'p', 'o', 'n', 's', 'e']) = false := by
+    simpa using h6
+  simp only [h6', Bool.false_eq_true, if_false] at h
+  by_cases h7 : identKind r.1 = ['c', 'l', 'u', 's', 't', 'e', 'r']
+  · simp [h7] at h
+  have h7' : (identKind r.1 == ['c', 'l', 'u', 's', 't', 'e', 'r']) = false := by simpa using h7
+  simp only [h7', Bool.false_eq_true, if_false] at h
+  by_cases h8 : identKind r.1 = ['s', 'e', 'r', 'v', 'e', 'r']
+  · simp [h8] at h
+  have h8' : (identKind r.1 == ['s', 'e', 'r', 'v', 'e', 'r']) = false := by simpa using h8
+  simp only [h8', Bool.false_eq_true, if_false] at h
+  refine Or.inr (Or.inr (Or.inr (Or.inr (Or.inr (Or.inr ⟨?_, ?_⟩)))))
+  · simp only [List.mem_cons, List.not_mem_nil, or_false, not_or]
+    exact ⟨h1, h2, h3, h4, h5, h6, h7, h8⟩
+  · rcases hg : opq.json_UnmarshalGenericClaims data default with ⟨g, e⟩
+    cases e <;> simp [hg] at h
+    obtain ⟨hver, hc⟩ := h
+    exact ⟨hver.symm, g, rfl, hc.symm⟩
 
 end Jwt.FnTie
